@@ -1122,8 +1122,16 @@ fn eval_up_to_(
     for syn_id in syn_ids.iter().rev() {
         // TODO: this is iterating items twice, which will be slower.
         if let Some(expr) = find_expr_of_id(items, syn_id.id()) {
-            expr_id = Some(expr.id);
             position = Some(expr.position.clone());
+
+            // Evaluating `(e)` just schedules `e`, so a parenthesised
+            // expression never finishes on its own. Stop at the
+            // expression inside the parentheses instead.
+            let mut target = &expr;
+            while let Expression_::Parentheses(paren) = &target.expr_ {
+                target = paren.expr.as_ref();
+            }
+            expr_id = Some(target.id);
             break;
         }
     }
